@@ -371,7 +371,7 @@ func oneHistory(rng *hx.Rng) (h hist, err error) {
 				rec.mu.Unlock()
 			}
 			<-start
-			var lastID uint32 = 0xfffffffe
+			lastID := uint32(1 + s.tid) // before its first registration a client guesses a small id
 			var svcs []bus.Service
 			for k, o := range s.ops {
 				switch delays[s.tid][k] {
